@@ -9,7 +9,13 @@ it starts, shows no observation while it is down, restarts with stage 0 at exact
 time and runs its stages in order; no message is handled after passing a gate of a module that
 was down at that instant; nothing of a module runs after a panic of one of its callbacks; the
 error list of `run()` is exactly the multiset of uncaught callback panics and joined task panics;
-the module context is free after the run.
+the module context is free after the run.  Three kinds of lines exist for this checker only (the
+model does not produce them; they are removed before the comparison): `spw` (a task is spawned,
+with `tokio::spawn` or `spawn_local`) — every task that resumes must have been spawned in the
+current incarnation of its module (`task-of-cancelled-incarnation`: a shutdown cancels both kinds)
+and, in scripts without panics, resumes exactly at its deadline (`timer-not-at-deadline`); `pes` /
+`pee` (`event_start` / `event_end` of a pass-through processing element) — a module that is down
+or has panicked gets no event bracket either (`inert-while-down`, `ran-after-panic`).
 
 Cases on which model and implementation agree completely are finally judged against C13 AS
 STATED; the two recorded deviations of the code are reported as tagged rejects (`tag=F-C13b`,
@@ -41,13 +47,14 @@ def parseAction (sc : Script) : List String → Option Action
     match delay.toNat?, id.toNat? with
     | some delay, some id => some (.sched delay id)
     | _, _ => none
-  | ["spawn", tag, sleep] =>
+  | "spawn" :: tag :: sleep :: flags =>
     match tag.toNat?, sleep.toNat? with
-    | some tag, some sleep => some (.spawn tag (max sleep 1) false)
-    | _, _ => none
-  | ["spawn", tag, sleep, "join"] =>
-    match tag.toNat?, sleep.toNat? with
-    | some tag, some sleep => some (.spawn tag (max sleep 1) true)
+    | some tag, some sleep =>
+      if flags == [] then some (.spawn tag (max sleep 1) false false)
+      else if flags == ["join"] then some (.spawn tag (max sleep 1) true false)
+      else if flags == ["local"] then some (.spawn tag (max sleep 1) false true)
+      else if flags == ["join", "local"] then some (.spawn tag (max sleep 1) true true)
+      else none
     | _, _ => none
   | ["shutdown"] => some .shutdown
   | ["restart_in", d] => d.toNat?.map .restartIn
@@ -129,11 +136,13 @@ def configOf (sc : Script) : Config :=
 def kindOf : String → Option OKind
   | "msg" => some .msg | "start" => some .start | "end" => some .end_ | "reset" => some .reset
   | "task" => some .task | "snd" => some .snd | "sch" => some .sch | "log" => some .log
-  | "dwn" => some .dwn | "pan" => some .pan | _ => none
+  | "dwn" => some .dwn | "pan" => some .pan | "spw" => some .spw | "pes" => some .pes | "pee" => some .pee
+  | _ => none
 
 def kindName : OKind → String
   | .msg => "msg" | .start => "start" | .end_ => "end" | .reset => "reset" | .task => "task"
   | .snd => "snd" | .sch => "sch" | .log => "log" | .dwn => "dwn" | .pan => "pan"
+  | .spw => "spw" | .pes => "pes" | .pee => "pee"
 
 def optNat (s : String) : Option (Option Nat) :=
   if s == "-" then some none else s.toNat?.map some
@@ -191,6 +200,7 @@ structure MSt where
   stageTime : Nat := 0
   everDown : Bool := false
   dead : Bool := false                      -- a callback panicked
+  tasks : List (Nat × Nat × Nat) := []      -- spawned in this incarnation, not resumed yet: tag, spawn time, sleep
   downs : List (Nat × Option Nat) := []     -- closed / open down intervals (from, to)
 
 structure Acc where
@@ -199,21 +209,41 @@ structure Acc where
   fail : Option (Nat × String) := none
 
 def isCode : OKind → Bool
-  | .msg | .start | .task | .snd | .sch | .log | .dwn | .pan => true
+  | .msg | .start | .task | .snd | .sch | .log | .dwn | .pan | .spw | .pes => true
   | _ => false
 
 /-- one observation of the implementation trace; `hasPanic`: the script contains a panic action -/
-def acceptStep (sc : Script) (hasPanic : Bool) (acc : Acc) (io : Nat × Obs) : Acc := Id.run do
+def acceptStep (sc : Script) (hasPanic : Bool) (endIdx : Nat) (acc : Acc) (io : Nat × Obs) : Acc := Id.run do
   let (i, o) := io
   if acc.fail.isSome then return acc
+  -- the sim-end phase opens with the `event_start` of the bracket around the first `at_sim_end`
+  let acc : Acc := if i ≥ endIdx then { acc with ended := true } else acc
   let some st := acc.ms[o.mod]? | return { acc with fail := some (i, "no-such-module") }
   let stages := ((sc.mods[o.mod]?).map (·.2.1)).getD 0
+  -- tasks (tokio::spawn and spawn_local alike): a task that resumes was spawned in the current
+  -- incarnation (a shutdown cancels every task), and — without panics — resumes at its deadline
+  let mut st := st
+  if o.kind == .spw then
+    st := { st with tasks := st.tasks ++ [(o.a.getD 0, o.time, o.b.getD 0)] }
+  if o.kind == .task then
+    let cands := st.tasks.filter (·.1 == o.a.getD 0)
+    match cands.find? (fun c => c.2.1 + c.2.2 == o.time) with
+    | some c => st := { st with tasks := st.tasks.erase c }
+    | none =>
+      match cands.head? with
+      | none => return { acc with fail := some (i, "task-of-cancelled-incarnation") }
+      | some c0 =>
+        if hasPanic || acc.ended then
+          let c := cands.foldl (fun b c => if c.2.1 + c.2.2 < b.2.1 + b.2.2 then c else b) c0
+          st := { st with tasks := st.tasks.erase c }
+        else return { acc with fail := some (i, "timer-not-at-deadline") }
+  if o.kind == .reset then st := { st with tasks := [] }
+  let acc : Acc := { acc with ms := acc.ms.set! o.mod st }
   let bad (c : String) : Acc := { acc with fail := some (i, c) }
   let put (st : MSt) : Acc := { acc with ms := acc.ms.set! o.mod st }
   -- the simulation end: `at_sim_end` runs for every module, overdue tasks resume (see DESIGN C13)
   if o.kind == .end_ then return { (put { st with phase := .ended }) with ended := true }
   if acc.ended || st.phase == .ended then return acc
-  let mut st := st
   -- a module of which a callback panicked runs nothing any more, unless it is restarted
   if st.dead && st.phase == .up && isCode o.kind then return bad "ran-after-panic"
   if st.phase == .down then
@@ -234,6 +264,8 @@ def acceptStep (sc : Script) (hasPanic : Bool) (acc : Acc) (io : Nat × Obs) : A
                         downs := st.downs.map fun d => if d.2.isNone then (d.1, some r) else d }
         return put st
       | none => return bad "restart-without-request"
+    -- the restart event opens with the `event_start` of the bracket around stage 0
+    else if o.kind == .pes && st.restartAt == some o.time then return acc
     else return bad "inert-while-down"
   -- phase up
   match o.kind with
@@ -267,7 +299,14 @@ def acceptStep (sc : Script) (hasPanic : Bool) (acc : Acc) (io : Nat × Obs) : A
   | _ => return put st
 
 def accept (sc : Script) (hasPanic : Bool) (impl : List Obs) : Acc :=
-  impl.zipIdx.foldl (fun acc p => acceptStep sc hasPanic acc (p.2, p.1)) { ms := (sc.mods.map fun _ => ({} : MSt)).toArray }
+  let endIdx := match impl.findIdx? (·.kind == .end_) with
+    | some k =>
+      (match impl[k]?, impl[k - 1]? with
+       | some e, some p => if k > 0 && p.kind == .pes && p.mod == e.mod then k - 1 else k
+       | _, _ => k)
+    | none => impl.length
+  impl.zipIdx.foldl (fun acc p => acceptStep sc hasPanic endIdx acc (p.2, p.1))
+    { ms := (sc.mods.map fun _ => ({} : MSt)).toArray }
 
 /-- was module `o` down strictly around instant `t`? -/
 def downAround (acc : Acc) (o t : Nat) : Bool :=
@@ -405,6 +444,10 @@ def runCase (twice : Bool) (c : Case) : String := Id.run do
   | some (k, clause) =>
     return s!"fail {id} op={k} kind=reject clause={clause} at=[{showObs sc impl[k]?}] prev=[{showObs sc (if k = 0 then none else impl[k-1]?)}]"
   | none => pure ()
+  -- the harness-only lines have been judged; the model does not produce them
+  let modelLine (o : Obs) : Bool := o.kind != .spw && o.kind != .pes && o.kind != .pee
+  impl := impl.filter modelLine
+  impl2 := impl2.filter modelLine
   match throughDown sc acc impl with
   | some (k, clause) => return s!"fail {id} op={k} kind=reject clause={clause} at=[{showObs sc impl[k]?}]"
   | none => pure ()
